@@ -542,6 +542,10 @@ def project_schema(sc, run):
                 else:
                     st.append({"name": name, "present": True, "t": v["t"], "n": v["n"]})
             diverging = sval(e["stats"], "diverging")
+            # the `diverging` statistic is the draw's own divergence flag (the one Progress reports)
+            pdiv = e["progress"]["diverging"]
+            divok = (diverging is None) or (bool(diverging) == bool(pdiv))
+            diverging = pdiv
             # option-controlled statistics (not events): present on every draw iff their own flag is set
             pres = {x["name"]: x["present"] for x in st}
             stg = sc.get("settings", {})
@@ -554,7 +558,7 @@ def project_schema(sc, run):
             if tid is not None:
                 last_tid = tid
             out.append({"e": "draw", "st": st, "diverging": bool(diverging), "changed": bool(changed),
-                        "counter": sval(e["stats"], "draw"), "chain": sval(e["stats"], "chain"), "flagok": bool(flagok)})
+                        "counter": sval(e["stats"], "draw"), "chain": sval(e["stats"], "chain"), "flagok": bool(flagok) and bool(divok)})
     return out
 
 
